@@ -12,7 +12,7 @@
    stopping contract and fixed-point property of power iteration.
    Partial: convergence of power iteration (a limit statement) is not proved; selection by magnitude holds only when the
    sliced order is the magnitude order - for the pinned code it is not (refutation witnesses below). *)
-From Coq Require Import ZArith List Arith Bool Sorting.Permutation.
+From Coq Require Import ZArith QArith Qcanon List Arith Bool Sorting.Permutation.
 From Core Require Import Base FieldBase PySlice C09_MatAlg C10_Model C10_Proofs C10_Power C10_Check.
 Import ListNotations.
 
@@ -35,18 +35,18 @@ Print Assumptions C10_slice_SM.
    column) every returned (lambda, v) satisfies A v = lambda v with v <> 0 *)
 Theorem C10_eig_pairs : forall (R : Type) (RR : Ring R) (FF : Field R) n m (A : fm (R:=R)) w V k wh o,
   EigSpec n m A w V -> eig_oracle m w V k wh = Some o -> EigPairs n A o.
-Proof. intros R RR FF. exact (@eig_oracle_pairs R RR FF). Qed.
+Proof. intros R RR FF. exact (eig_oracle_pairs (R:=R)). Qed.
 Print Assumptions C10_eig_pairs.
 (* the specification of eigh / eig (A V = V diag w with V invertible, in particular unitary) implies the one used above *)
 Theorem C10_oracle_spec_dense : forall (R : Type) (RR : Ring R) (FF : Field R) n (A : fm (R:=R)) w V,
   invertible n V -> feq n n (mmul n A V) (mmul n V (dg w)) -> EigSpec n n A w V.
-Proof. intros R RR FF. exact (@EigSpec_of_invertible R RR FF). Qed.
+Proof. intros R RR FF. exact (EigSpec_of_invertible (R:=R)). Qed.
 Print Assumptions C10_oracle_spec_dense.
 (* the vectors returned by the dense rules are linearly independent *)
 Theorem C10_eig_independent : forall (R : Type) (RR : Ring R) (FF : Field R) n (V : fm (R:=R)) (idx : list nat) (c : nat -> R),
   invertible n V -> NoDup idx -> (forall x, In x idx -> (x < n)%nat) ->
   (forall i, (i < n)%nat -> sum (length idx) (fun j => rmul (V i (nth j idx 0%nat)) (c j)) = r0) -> forall j, (j < length idx)%nat -> c j = r0.
-Proof. intros R RR FF. exact (@eig_dense_independent R RR FF). Qed.
+Proof. intros R RR FF. exact (eig_dense_independent (R:=R)). Qed.
 Print Assumptions C10_eig_independent.
 
 (* selection: with the sliced spectrum ascending for a preorder le, 'LM' returns the k largest, 'SM' the k smallest for le.
@@ -54,37 +54,37 @@ Print Assumptions C10_eig_independent.
 Theorem C10_select_LM : forall (R : Type) (RR : Ring R) (FF : Field R) (le : R -> R -> Prop) m (w : nat -> R) V k o,
   ascending le m w -> (1 <= k)%nat -> (k <= m)%nat -> slice_out (Z.of_nat k) LM (mkeout m w V) = Some o ->
   ek o = k /\ (forall j, (j < k)%nat -> ew o j = w (m - k + j)%nat) /\ forall i j, (i < m - k)%nat -> (j < k)%nat -> le (w i) (ew o j).
-Proof. intros R RR FF. exact (@select_LM R). Qed.
+Proof. intros R RR FF. exact (select_LM (R:=R)). Qed.
 Print Assumptions C10_select_LM.
 Theorem C10_select_SM : forall (R : Type) (RR : Ring R) (FF : Field R) (le : R -> R -> Prop) m (w : nat -> R) V k o,
   ascending le m w -> (1 <= k)%nat -> (k <= m)%nat -> slice_out (Z.of_nat k) SM (mkeout m w V) = Some o ->
   ek o = k /\ (forall j, (j < k)%nat -> ew o j = w j) /\ forall i j, (k <= i)%nat -> (i < m)%nat -> (j < k)%nat -> le (ew o j) (w i).
-Proof. intros R RR FF. exact (@select_SM R). Qed.
+Proof. intros R RR FF. exact (select_SM (R:=R)). Qed.
 Print Assumptions C10_select_SM.
 (* asking for all n pairs reproduces the oracle's whole spectrum and all its vectors *)
 Theorem C10_eig_all : forall (R : Type) (RR : Ring R) (FF : Field R) m (w : nat -> R) V wh o,
   (1 <= m)%nat -> slice_out (Z.of_nat m) wh (mkeout m w V) = Some o ->
   ek o = m /\ (forall j, (j < m)%nat -> ew o j = w j) /\ (forall i j, (j < m)%nat -> eV o i j = V i j).
-Proof. intros R RR FF. exact (@eig_all R). Qed.
+Proof. intros R RR FF. exact (eig_all (R:=R)). Qed.
 Print Assumptions C10_eig_all.
 (* eigmax / eigmin are the last / first entry of the sliced spectrum *)
 Theorem C10_eigmax : forall (R : Type) (RR : Ring R) (FF : Field R) m (w : nat -> R) V,
   (1 <= m)%nat -> first_val (slice_out 1 LM (mkeout m w V)) = Some (w (m - 1)%nat).
-Proof. intros R RR FF. exact (@eigmax_last R). Qed.
+Proof. intros R RR FF. exact (eigmax_last (R:=R)). Qed.
 Print Assumptions C10_eigmax.
 Theorem C10_eigmin : forall (R : Type) (RR : Ring R) (FF : Field R) m (w : nat -> R) V,
   (1 <= m)%nat -> first_val (slice_out 1 SM (mkeout m w V)) = Some (w 0%nat).
-Proof. intros R RR FF. exact (@eigmin_first R). Qed.
+Proof. intros R RR FF. exact (eigmin_first (R:=R)). Qed.
 Print Assumptions C10_eigmin.
 
 (* structural rules *)
 Theorem C10_eig_identity : forall (R : Type) (RR : Ring R) (FF : Field R) n k wh o,
   eig_ident (R:=R) n k wh = Some o -> EigPairs n eye o.
-Proof. intros R RR FF. exact (@eig_ident_pairs R RR FF). Qed.
+Proof. intros R RR FF. exact (eig_ident_pairs (R:=R)). Qed.
 Print Assumptions C10_eig_identity.
 Theorem C10_eig_diagonal : forall (R : Type) (RR : Ring R) (FF : Field R) leb n (d : nat -> R) k wh o,
   eig_diag leb n d k wh = Some o -> EigPairs n (dg d) o.
-Proof. intros R RR FF. exact (@eig_diag_pairs R RR FF). Qed.
+Proof. intros R RR FF. exact (eig_diag_pairs (R:=R)). Qed.
 Print Assumptions C10_eig_diagonal.
 (* ... and it selects by the order argsort uses (by value in the pinned code) *)
 Theorem C10_eig_diagonal_selects : forall (R : Type) (RR : Ring R) (FF : Field R) leb n (d : nat -> R) k o,
@@ -93,24 +93,24 @@ Theorem C10_eig_diagonal_selects : forall (R : Type) (RR : Ring R) (FF : Field R
   let idx := argsort leb n d in
   Permutation idx (seq 0 n) /\ ek o = k /\ (forall j, (j < k)%nat -> ew o j = d (nth (n - k + j) idx 0%nat)) /\
   forall i j, (i < n - k)%nat -> (j < k)%nat -> leb (d (nth i idx 0%nat)) (ew o j) = true.
-Proof. intros R RR FF. exact (@eig_diag_selects_LM R RR FF). Qed.
+Proof. intros R RR FF. exact (eig_diag_selects_LM (R:=R)). Qed.
 Print Assumptions C10_eig_diagonal_selects.
 (* Triangular rule = compute_lower_triangular_eigvecs (back-substitution), argsort, slice: on an UPPER triangular matrix
    with distinct diagonal entries the returned columns are eigenvectors (non-zero: unit diagonal) *)
 Theorem C10_eig_triangular : forall (R : Type) (RR : Ring R) (FF : Field R) leb n (U : fm (R:=R)) k wh o,
   upper n U -> (forall a b, (a < b)%nat -> (b < n)%nat -> U a a <> U b b) ->
   eig_tri leb usolve (fun x => x) n U k wh = Some o -> EigPairs n U o.
-Proof. intros R RR FF. exact (@eig_tri_pairs R RR FF). Qed.
+Proof. intros R RR FF. exact (eig_tri_pairs (R:=R)). Qed.
 Print Assumptions C10_eig_triangular.
 (* the same for any linear solver meeting its specification on the systems the rule builds (np.linalg.solve as an oracle) *)
 Theorem C10_eig_triangular_oracle : forall (R : Type) (RR : Ring R) (FF : Field R) leb solve n (U : fm (R:=R)) k wh o,
   upper n U -> SolveSpec solve n U -> eig_tri leb solve (fun x => x) n U k wh = Some o -> EigPairs n U o.
-Proof. intros R RR FF. exact (@eig_tri_pairs_oracle R RR FF). Qed.
+Proof. intros R RR FF. exact (eig_tri_pairs_oracle (R:=R)). Qed.
 Print Assumptions C10_eig_triangular_oracle.
 Theorem C10_back_substitution : forall (R : Type) (RR : Ring R) (FF : Field R) k (A : fm (R:=R)) b,
   (forall r c, (c < r)%nat -> (r < k)%nat -> A r c = r0) -> (forall r, (r < k)%nat -> A r r <> r0) ->
   forall r, (r < k)%nat -> sum k (fun c => rmul (A r c) (usolve k A b c)) = b r.
-Proof. intros R RR FF. exact (@usolve_spec R RR FF). Qed.
+Proof. intros R RR FF. exact (usolve_spec (R:=R)). Qed.
 Print Assumptions C10_back_substitution.
 
 (* power iteration: stopping contract (for every interpretation of the scalar operations, floats included) *)
@@ -126,7 +126,7 @@ Theorem C10_power_fixed_point_partial : forall (R : Type) (RR : Ring R) (FF : Fi
   let s := mkps i v vp e ep in
   pnorm (fo fabs fsqrt fgtb) (pmv (fo fabs fsqrt fgtb) A v) <> r0 -> pv (pbody (fo fabs fsqrt fgtb) A s) = v -> pdot (fo fabs fsqrt fgtb) v v = r1 ->
   pmv (fo fabs fsqrt fgtb) A v = map (fun x => rmul (peig (pbody (fo fabs fsqrt fgtb) A s)) x) v.
-Proof. intros R RR FF. exact (@power_fixed_point_unit R RR FF). Qed.
+Proof. intros R RR FF. exact (power_fixed_point_unit (R:=R)). Qed.
 Print Assumptions C10_power_fixed_point_partial.
 
 (* ---- refutation witnesses: the faithful model of the pinned code violates the magnitude / eigenpair clauses ---- *)
